@@ -102,7 +102,12 @@ class Site:
         self.text = "%s:%s(%s)" % (fn_key(b), kind, ", ".join(ops))
         if kind == "diverge":
             # the message of the panic distinguishes panic!/unreachable!/unimplemented!/assert failures
-            self.canon = ", ".join(ops) + "|" + ", ".join(norm(b.canon(o)) for o in raw_ops)[:400]
+            # (the text after "assertion failed:" is the source text of the condition — it contains variable names
+            # and is dropped; the number of such sites per function is what the table row's xN pins)
+            import re as _re
+            msg = ", ".join(norm(b.canon(o)) for o in raw_ops)[:400]
+            msg = _re.sub(r'"assertion failed: [^"]*"', '"assertion failed"', msg)
+            self.canon = ", ".join(ops) + "|" + msg
         else:
             self.canon = ", ".join(norm(b.canon(o)) for o in raw_ops)
         self.key = "%s:%s#%s" % (fn_key(b), kind, h8(self.canon))
@@ -348,8 +353,11 @@ def discharge(F, mag, site):
 
 
 def load_table():
-    """tables/panic_sites.txt: `site key :: readable site text :: invariant / reason` (one reviewed row per key)"""
+    """tables/panic_sites.txt: `site key [xN] :: readable site text :: invariant / reason`.  One reviewed row per key;
+    xN (default 1) is the number of sites with that key that were reviewed — several sites of one function can have
+    the same kind and the same canonical operands; a further one is not covered by the row."""
     import os
+    import re
     from .facts import VERIF
     rows = {}
     p = os.path.join(VERIF, "tables", "panic_sites.txt")
@@ -360,7 +368,12 @@ def load_table():
                 continue
             parts = line.split(" :: ")
             if len(parts) >= 3:
-                rows[parts[0].strip()] = parts[-1].strip()
+                k = parts[0].strip()
+                n = 1
+                m = re.fullmatch(r"(.*) x(\d+)", k)
+                if m:
+                    k, n = m.group(1), int(m.group(2))
+                rows[k] = (parts[-1].strip(), n)
     return rows
 
 
